@@ -742,6 +742,31 @@ def check_case(spec, req, model, real):
     return ties, viol, info
 
 
+def repair(spec, fid, detail):
+    """The finding's repair transform (DESIGN §2.7): the same input with the finding's trigger
+    removed.  F-C06-a: the block's rows written inline (so their obj_id reaches the real
+    container); F-C06-b: the mere references to the trigger's flow removed (so the flow is
+    neither defined nor mentioned and the trigger must be rejected)."""
+    sp = copy.deepcopy(spec)
+    if fid == "F-C06-a":
+        for f in sp["flows"]:
+            rows = []
+            for r in f["rows"]:
+                rows += copy.deepcopy(sp["blocks"][r["block"]]) if r["t"] == "block" else [r]
+            f["rows"] = rows
+        sp["blocks"] = {}
+    else:
+        name = detail["trigger_flow"]
+        for f in sp["flows"]:
+            if "rows" in f:
+                f["rows"] = [r for r in f["rows"] if not (r["t"] == "start" and r["name"] == name)] or [{"t": "msg"}]
+            else:
+                f["nodes"] = [n for n in f["nodes"] if not (n["t"] == "enter" and n["flow"][0] == name)]
+        for c in sp["campaigns"]:
+            c["events"] = [e for e in c["events"] if not (e.get("flow") and e["flow"][0] == name)]
+    return sp
+
+
 def worker(specs):
     drv = core.Driver()
     reqs = [model_request(s) for s in specs]
@@ -750,6 +775,16 @@ def worker(specs):
     for spec, req, m in zip(specs, reqs, answers):
         real = run_real(copy.deepcopy(spec), req)
         ties, viol, info = check_case(spec, req, m, real)
+        # counterfactual test of every attribution to a known finding
+        for fid, detail in list(info["known"]):
+            sp2 = repair(spec, fid, detail)
+            req2 = model_request(sp2)
+            m2 = drv.results([req2])[0]
+            real2 = run_real(copy.deepcopy(sp2), req2)
+            t2, v2, i2 = check_case(sp2, req2, m2, real2)
+            if v2 or any(k[0] == fid for k in i2["known"]):
+                viol.append({"what": f"failure looked like {fid} but does not disappear under the finding's repair transform",
+                             "repaired_spec": sp2, "still": (v2[:2] or i2["known"][:2])})
         n_occ = len(flat_inputs(req))
         out.append({"ties": ties[:3], "viol": viol[:3], "info": info, "n_occ": n_occ})
     return out
